@@ -65,6 +65,8 @@ def correspondence(ctx):
     for D in (1, 2, 3):
         for N in ([6, 7] if ctx.tier == "quick" else [4, 5, 6, 7, 8]):
             L, c, dt = float(rng.uniform(1, 6)), float(rng.uniform(0.3, 2)), float(rng.choice([0.01, 1.0, 100.0, -0.4]))
+            if N % 2 == 1:
+                L = float(rng.choice([10.0, 50.0]))      # long domains: scaled wavenumbers below one
             st = ex.stepper.Wave(D, L, N, dt, speed_of_sound=c)
             M = int(np.prod(sp.wavenumber_shape(D, N)))
             uh = rng.normal(size=(2, M)) + 1j * rng.normal(size=(2, M))
@@ -185,11 +187,12 @@ def probe_exact(name, D, N, dt, seed, forced=None):
             "kwargs": {k: str(v) for k, v in spec.kwargs.items()}}
 
 
-def probe_wave(D, N, dt, seed):
+def probe_wave(D, N, dt, seed, L=None):
     import jax.numpy as jnp
     import exponax as ex
     rng = np.random.default_rng(seed)
-    L, c = float(rng.uniform(1, 6)), float(rng.uniform(0.3, 2))
+    L0, c = float(rng.uniform(1, 6)), float(rng.uniform(0.3, 2))
+    L = L0 if L is None else float(L)    # also domains longer than 2π
     st = ex.stepper.Wave(D, L, N, dt, speed_of_sound=c)
     modes_h = _mode_state(rng, D, N, 2)
     modes_v = _mode_state(rng, D, N, 2)
@@ -244,12 +247,12 @@ def oracle(ctx, deep):
                 if hit:
                     break
     for (D, N) in cases:
-        for dt in (0.5, 100.0, -0.3):
-            r = probe_wave(D, N, dt, ctx.seed)
-            ctx.count(("oracle_wave", D, N, dt))
+        for dt, L in ((0.5, None), (100.0, None), (-0.3, None), (0.5, 20.0), (3.0, 50.0)):
+            r = probe_wave(D, N, dt, ctx.seed, L)
+            ctx.count(("oracle_wave", D, N, dt, L))
             if not r["ok"]:
-                fails.append({"key": "C01:exact:Wave", "what": f"Wave (D={D}, N={N}, dt={dt}) differs from the analytic solution: {r}",
-                              "probe": "wave", "args": {"D": D, "N": N, "dt": dt, "seed": ctx.seed}, "observed": r})
+                fails.append({"key": "C01:exact:Wave", "what": f"Wave (D={D}, N={N}, dt={dt}, L={L if L else 'random in (1,6)'}) differs from the analytic solution: {r}",
+                              "probe": "wave", "args": {"D": D, "N": N, "dt": dt, "seed": ctx.seed, "L": L}, "observed": r})
     seen, out = set(), []
     for f in fails:
         if f["key"] not in seen:
